@@ -425,12 +425,11 @@ struct EGioFile_st {int type; void*file;};
 /* ========================================================================= */
 int EGioWrite(EGioFile_t*file,const char*const string)
 {
-	char buf[EGio_BUFSIZE];
-	int len;
-	buf[EGio_BUFSIZE-1] = 0;
-	snprintf(buf,EGio_BUFSIZE,"%s",string);
-	len = strlen(buf);
-	if(len<=0 || len >= EGio_BUFSIZE || buf[EGio_BUFSIZE-1]!=0) return 0;
+	/* write the whole string: lines of LP/MPS/solution files are not bounded by
+	 * EGio_BUFSIZE (rationals with thousands of digits) */
+	const char*const buf = string;
+	const size_t len = strlen(string);
+	if(len == 0) return 0;
 	switch(file->type)
 	{
 		case EGIO_PLAIN:
@@ -444,7 +443,7 @@ int EGioWrite(EGioFile_t*file,const char*const string)
 #endif
 		case EGIO_BZLIB:
 #ifdef HAVE_LIBBZ2
-			return BZ2_bzwrite((BZFILE*)(file->file),buf,len);
+			return BZ2_bzwrite((BZFILE*)(file->file),(void*)buf,(int)len);
 #else
 			QSlog("no bzip2 support");
 			return 0;
@@ -457,13 +456,23 @@ int EGioWrite(EGioFile_t*file,const char*const string)
 /* ========================================================================= */
 int EGioPrintf(EGioFile_t*file,const char* format, ...)
 {
-	char buf[EGio_BUFSIZE];
+	char buf[EGio_BUFSIZE], *big = 0;
 	va_list va;
-	buf[EGio_BUFSIZE-1]=0;
+	int n, rval;
 	va_start(va,format);
-	vsnprintf(buf,EGio_BUFSIZE,format,va);
+	n = vsnprintf(buf,EGio_BUFSIZE,format,va);
 	va_end(va);
-	return EGioWrite(file,buf);
+	if(n < 0) return 0;
+	if(n < EGio_BUFSIZE) return EGioWrite(file,buf);
+	/* does not fit: format again into a buffer of the required size */
+	big = (char*)malloc((size_t)n+1);
+	if(!big) return 0;
+	va_start(va,format);
+	vsnprintf(big,(size_t)n+1,format,va);
+	va_end(va);
+	rval = EGioWrite(file,big);
+	free(big);
+	return rval;
 }
 /* ========================================================================= */
 EGioFile_t* EGioOpenFILE(FILE*ifile)
